@@ -94,3 +94,45 @@ func (h *H) Exec(pre asm.Flags, flagIdx int, flagVal uint8, zeroC bool) {
 	vp.Assert("cpu-x-flag-equals-tracked-width", gx == tx)
 	vp.Reach("executed")
 }
+
+// CloneAppendLemma: the two non-emitting operations of piecewise assembly keep the C07 invariant
+// (Emitter.PC() and tracked widths describe the CPU after the bytes emitted so far). A Clone starts
+// where its parent stands; after Append the parent stands where the clone stood, and the clone's
+// bytes follow the parent's own. The clone changes widths (SEP or REP with a symbolic mask) and
+// emits an instruction in between, so a parent that kept its old widths would be noticed.
+func CloneAppendLemma(rep int) {
+	buf := make([]byte, 12)
+	e := asm.NewEmitter(buf, false)
+	base := vp.U32("base")
+	vp.Assume(base < 1<<24 && base&0xFFFF <= 0xFFE0)
+	e.SetBase(base)
+	e.AssumeSEP(asm.Flags(vp.U8("tracked-flags")))
+	e.EmitBytes([]byte{vp.U8("d0"), vp.U8("d1")})
+	c := e.Clone(make([]byte, 8))
+	vp.Assert("clone-starts-at-the-parents-pc", c.PC() == e.PC())
+	vp.Assert("clone-starts-with-the-parents-tracked-widths", c.Flags() == e.Flags())
+	f := asm.Flags(vp.U8("mask"))
+	if rep == 1 {
+		c.REP(f)
+	} else {
+		c.SEP(f)
+	}
+	c.LDA_abs(vp.U16("w"))
+	n0 := e.Len()
+	own := [2]byte{e.Bytes()[0], e.Bytes()[1]}
+	cpc, cfl := c.PC(), c.Flags() // where the clone stands before it is appended
+	e.Append(c)
+	vp.Assert("append-continues-at-the-clones-pc", e.PC() == cpc)
+	vp.Assert("append-continues-with-the-clones-tracked-widths", e.Flags() == cfl)
+	out := e.Bytes()
+	ok := len(out) == n0+c.Len() && out[0] == own[0] && out[1] == own[1]
+	if ok {
+		for i, b := range c.Bytes() {
+			if out[n0+i] != b {
+				ok = false
+			}
+		}
+	}
+	vp.Assert("appended-bytes-follow-the-parents-own", ok)
+	vp.Reach("end")
+}
